@@ -1,11 +1,471 @@
 package main
 
-// Replay of counterexamples on the real code (DESIGN.md 3.10).
+// Replay of counterexamples on the real code (DESIGN.md 3.10, 10.5).
+//
+// Scope: a refuted (`sat`) no-panic or postcondition obligation of a plain function (no receiver, no closure, no generic
+// instance) all of whose parameters are integers, booleans or strings. The solver is asked again for the values of the
+// parameters; a Go test that calls the REAL function with these values is injected into the package through
+// `go test -overlay` (nothing is written into the repository) and run. The violation counts as replayed only if the real
+// code panics (no-panic obligations) or returns values that falsify the postcondition (translated to Go; only quantifier-
+// free postconditions and range quantifiers over int are translated). Everything else keeps "no-failing-input-found".
+
+import (
+	"bytes"
+	"context"
+	"encoding/json"
+	"fmt"
+	"go/types"
+	"os"
+	"os/exec"
+	"path/filepath"
+	"regexp"
+	"strconv"
+	"strings"
+	"time"
+)
 
 func tryReplay(cfg *Config, r *Report, o *Obligation) (map[string]any, *ReplayResult) {
-	return nil, nil
+	var fr *FuncResult
+	for _, f := range r.Funcs {
+		if f.Name == o.Func {
+			fr = f
+		}
+	}
+	if fr == nil || fr.Fn == nil || fr.C == nil {
+		return nil, nil
+	}
+	note := func(s string) (map[string]any, *ReplayResult) { return nil, &ReplayResult{Note: "not replayed: " + s} }
+	isPanic := strings.HasPrefix(o.Kind, "no-panic")
+	isEns := o.Kind == "ensures"
+	if !isPanic && !isEns {
+		return note("only no-panic and postcondition obligations are replayed (this one is " + o.Kind + ")")
+	}
+	fn := fr.Fn
+	if fr.Inst != "" || fn.Parent() != nil || fn.Signature.Recv() != nil || strings.Contains(fr.Key, "$") {
+		return note("methods, closures and generic instances are not replayed")
+	}
+	if len(o.Inputs) != len(fn.Params) {
+		return note("inputs not recorded")
+	}
+	pkgPath := fr.Pkg
+	for _, p := range fn.Params {
+		switch u := p.Type().Underlying().(type) {
+		case *types.Basic:
+			if u.Info()&(types.IsInteger|types.IsBoolean|types.IsString) == 0 {
+				return note("parameter " + p.Name() + " is not an integer, boolean or string")
+			}
+		default:
+			return note("parameter " + p.Name() + " is not an integer, boolean or string")
+		}
+		if n, ok := p.Type().(*types.Named); ok && (n.Obj().Pkg() == nil || n.Obj().Pkg().Path() != pkgPath) {
+			return note("parameter type from another package")
+		}
+	}
+	// ---- ask the solver for the parameter values
+	var terms []string
+	for i, p := range fn.Params {
+		in := o.Inputs[i]
+		if b, ok := p.Type().Underlying().(*types.Basic); ok && b.Info()&types.IsString != 0 {
+			terms = append(terms, "(slen "+in.Term+")")
+		} else {
+			terms = append(terms, in.Term)
+		}
+	}
+	vals, err := getValues(cfg, r, o, terms)
+	if err != nil {
+		return note("no model: " + err.Error())
+	}
+	model := map[string]any{}
+	var goArgs []string
+	for i, p := range fn.Params {
+		in := o.Inputs[i]
+		tstr := types.TypeString(p.Type(), func(pk *types.Package) string { return "" })
+		b := p.Type().Underlying().(*types.Basic)
+		switch {
+		case b.Info()&types.IsString != 0:
+			n, ok := parseSMTInt(vals[i])
+			if !ok || n < 0 || n > 200 {
+				return note(fmt.Sprintf("string parameter %s has length %s in the model (only lengths 0..200 are replayed)", p.Name(), vals[i]))
+			}
+			var bts []string
+			for k := int64(0); k < n; k++ {
+				bts = append(bts, fmt.Sprintf("(sbyte %s %d)", in.Term, k))
+			}
+			var bs []byte
+			if n > 0 {
+				bv, err := getValues(cfg, r, o, bts)
+				if err != nil {
+					return note("no model for string bytes: " + err.Error())
+				}
+				for _, v := range bv {
+					x, ok := parseSMTInt(v)
+					if !ok || x < 0 || x > 255 {
+						x = 0
+					}
+					bs = append(bs, byte(x))
+				}
+			}
+			model[p.Name()] = fmt.Sprintf("%q", string(bs))
+			goArgs = append(goArgs, fmt.Sprintf("%s(%q)", tstr, string(bs)))
+		case b.Info()&types.IsBoolean != 0:
+			model[p.Name()] = vals[i]
+			goArgs = append(goArgs, fmt.Sprintf("%s(%s)", tstr, vals[i]))
+		default:
+			n, ok := parseSMTInt(vals[i])
+			if !ok {
+				if bvv, ok2 := parseSMTBV(vals[i], b); ok2 {
+					n, ok = bvv, true
+				}
+			}
+			if !ok {
+				return note("cannot read the model value of " + p.Name() + ": " + vals[i])
+			}
+			model[p.Name()] = n
+			goArgs = append(goArgs, fmt.Sprintf("%s(%d)", tstr, n))
+		}
+	}
+	// ---- the test
+	mod := moduleOf(r.mods, pkgPath)
+	if mod == nil {
+		return model, &ReplayResult{Note: "not replayed: module not found"}
+	}
+	rel := strings.TrimPrefix(strings.TrimPrefix(pkgPath, mod.Path), "/")
+	pkgDir := filepath.Join(mod.Dir, rel)
+	pkgName := fn.Pkg.Pkg.Name()
+	var res []string
+	for i := 0; i < fn.Signature.Results().Len(); i++ {
+		name := fmt.Sprintf("govcR%d", i)
+		if i < len(fr.C.ResultNames) && fr.C.ResultNames[i] != "" && fr.C.ResultNames[i] != "_" {
+			name = fr.C.ResultNames[i]
+		}
+		res = append(res, name)
+	}
+	check := ""
+	if isEns {
+		text := strings.TrimPrefix(o.Desc, "postcondition: ")
+		x, err := parseExpr(text)
+		if err != nil {
+			return model, &ReplayResult{Note: "not replayed: postcondition does not parse"}
+		}
+		names := map[string]bool{}
+		for _, p := range fn.Params {
+			names[p.Name()] = true
+		}
+		for _, n := range res {
+			names[n] = true
+		}
+		g, err := specToGo(x, names)
+		if err != nil {
+			return model, &ReplayResult{Note: "not replayed: postcondition not translatable to Go (" + err.Error() + ")"}
+		}
+		check = "\tif !(" + g + ") {\n\t\tfmt.Println(\"GOVC-REPLAY-ENSURES-VIOLATED\")\n\t}\n"
+	}
+	var src bytes.Buffer
+	fmt.Fprintf(&src, "package %s\n\nimport (\n\t\"fmt\"\n\t\"testing\"\n)\n\n", pkgName)
+	fmt.Fprintf(&src, "// generated by govc: replay of %s\nfunc TestGovcReplay(t *testing.T) {\n", o.Name)
+	fmt.Fprintf(&src, "\tdefer func() {\n\t\tif r := recover(); r != nil {\n\t\t\tfmt.Printf(\"GOVC-REPLAY-PANIC: %%v\\n\", r)\n\t\t}\n\t}()\n")
+	// parameters as variables (the postcondition refers to them by name)
+	for i, p := range fn.Params {
+		fmt.Fprintf(&src, "\t%s := %s\n\t_ = %s\n", p.Name(), goArgs[i], p.Name())
+	}
+	var pn []string
+	for _, p := range fn.Params {
+		pn = append(pn, p.Name())
+	}
+	call := fmt.Sprintf("%s(%s)", fn.Name(), strings.Join(pn, ", "))
+	if fn.Signature.Variadic() && len(pn) > 0 {
+		call = fmt.Sprintf("%s(%s...)", fn.Name(), strings.Join(pn, ", "))
+	}
+	if len(res) > 0 {
+		fmt.Fprintf(&src, "\t%s := %s\n", strings.Join(res, ", "), call)
+		for _, n := range res {
+			fmt.Fprintf(&src, "\t_ = %s\n", n)
+		}
+	} else {
+		fmt.Fprintf(&src, "\t%s\n", call)
+	}
+	src.WriteString(check)
+	src.WriteString("\tfmt.Println(\"GOVC-REPLAY-RETURNED\")\n}\n")
+	replayDir := filepath.Join(cfg.Verif, "replays", r.Property)
+	_ = os.MkdirAll(replayDir, 0o755)
+	testFile := filepath.Join(replayDir, sanitizeFile(o.Name)+"_replay_test.go")
+	if err := os.WriteFile(testFile, src.Bytes(), 0o644); err != nil {
+		return model, &ReplayResult{Note: "not replayed: " + err.Error()}
+	}
+	rr := runReplayTest(cfg, mod.Dir, pkgDir, testFile)
+	rr.Test = testFile
+	switch {
+	case isPanic && strings.Contains(rr.Output, "GOVC-REPLAY-PANIC"):
+		rr.Confirmed = true
+		rr.Note = "the real function panics on the solver's input"
+	case isEns && strings.Contains(rr.Output, "GOVC-REPLAY-ENSURES-VIOLATED"):
+		rr.Confirmed = true
+		rr.Note = "the real function returns values that falsify the postcondition on the solver's input"
+	case isEns && strings.Contains(rr.Output, "GOVC-REPLAY-PANIC"):
+		rr.Note = "the real function panics on the solver's input (the obligation was a postcondition)"
+	default:
+		rr.Note = "the solver's input does not reproduce the violation on the real code (the model may rely on an abstraction)"
+	}
+	return model, rr
+}
+
+func runReplayTest(cfg *Config, modDir, pkgDir, testFile string) *ReplayResult {
+	ov := map[string]map[string]string{"Replace": {filepath.Join(pkgDir, "zz_govc_replay_test.go"): testFile}}
+	data, _ := json.Marshal(ov)
+	ovFile := filepath.Join(cfg.TmpDir, "overlay_"+sanitizeFile(filepath.Base(testFile))+".json")
+	_ = os.WriteFile(ovFile, data, 0o644)
+	ctx, cancel := context.WithTimeout(context.Background(), 180*time.Second)
+	defer cancel()
+	rel, _ := filepath.Rel(modDir, pkgDir)
+	cmd := exec.CommandContext(ctx, "go", "test", "-overlay", ovFile, "-vet=off", "-count=1", "-timeout", "60s", "-run", "^TestGovcReplay$", "-v", "./"+rel)
+	cmd.Dir = modDir
+	cmd.Env = goEnv()
+	var out bytes.Buffer
+	cmd.Stdout = &out
+	cmd.Stderr = &out
+	_ = cmd.Run()
+	o := out.String()
+	if len(o) > 4000 {
+		o = o[:4000]
+	}
+	return &ReplayResult{Output: o}
 }
 
 func rerunReplayTest(cfg *Config, testFile string) *ReplayResult {
-	return &ReplayResult{}
+	return &ReplayResult{Note: "re-run with: go test -overlay (see replay.test_file)"}
+}
+
+// getValues re-runs z3-new on the obligation's script and returns the model values of the given terms.
+func getValues(cfg *Config, r *Report, o *Obligation, terms []string) ([]string, error) {
+	if len(terms) == 0 {
+		return nil, nil
+	}
+	text := o.Text
+	idx := strings.LastIndex(text, "(check-sat)")
+	if idx < 0 {
+		return nil, fmt.Errorf("no check-sat in the script")
+	}
+	var out []string
+	// one get-value per term keeps the output easy to split
+	var q strings.Builder
+	q.WriteString(text[:idx])
+	q.WriteString("(check-sat)\n")
+	for _, t := range terms {
+		q.WriteString("(get-value (" + t + "))\n")
+	}
+	file := filepath.Join(cfg.TmpDir, sanitizeFile(o.Name)+".model.smt2")
+	if err := os.WriteFile(file, []byte(q.String()), 0o644); err != nil {
+		return nil, err
+	}
+	ctx, cancel := context.WithTimeout(context.Background(), 60*time.Second)
+	defer cancel()
+	sp := solverSpecs[0]
+	if o.Result.Solver == "z3" {
+		sp = solverSpecs[1]
+	}
+	cmd := exec.CommandContext(ctx, sp.bin, sp.args(file, 30, r.Seed)...)
+	var buf bytes.Buffer
+	cmd.Stdout = &buf
+	cmd.Stderr = &buf
+	_ = cmd.Run()
+	lines := strings.Split(buf.String(), "\n")
+	if len(lines) == 0 || strings.TrimSpace(lines[0]) != "sat" {
+		return nil, fmt.Errorf("solver answered %q on the re-run", strings.TrimSpace(lines[0]))
+	}
+	rest := strings.Join(lines[1:], " ")
+	// each answer has the form ((<term> <value>))
+	for _, t := range terms {
+		k := strings.Index(rest, "(("+t+" ")
+		if k < 0 {
+			return nil, fmt.Errorf("no value for %s", t)
+		}
+		v, n := sexprAt(rest[k+2+len(t)+1:])
+		if n == 0 {
+			return nil, fmt.Errorf("cannot parse the value of %s", t)
+		}
+		out = append(out, strings.TrimSpace(v))
+		rest = rest[k+2+len(t)+1+n:]
+	}
+	return out, nil
+}
+
+// sexprAt returns the first s-expression (or atom) of s and its length.
+func sexprAt(s string) (string, int) {
+	i := 0
+	for i < len(s) && s[i] == ' ' {
+		i++
+	}
+	if i >= len(s) {
+		return "", 0
+	}
+	if s[i] != '(' {
+		j := i
+		for j < len(s) && s[j] != ' ' && s[j] != ')' {
+			j++
+		}
+		return s[i:j], j
+	}
+	d := 0
+	for j := i; j < len(s); j++ {
+		switch s[j] {
+		case '(':
+			d++
+		case ')':
+			d--
+			if d == 0 {
+				return s[i : j+1], j + 1
+			}
+		}
+	}
+	return "", 0
+}
+
+var reNeg = regexp.MustCompile(`^\(\s*-\s*(\d+)\s*\)$`)
+
+func parseSMTInt(v string) (int64, bool) {
+	v = strings.TrimSpace(v)
+	if m := reNeg.FindStringSubmatch(v); m != nil {
+		n, err := strconv.ParseInt(m[1], 10, 64)
+		if err != nil {
+			// -2^63
+			if m[1] == "9223372036854775808" {
+				return -9223372036854775808, true
+			}
+			return 0, false
+		}
+		return -n, true
+	}
+	n, err := strconv.ParseInt(v, 10, 64)
+	return n, err == nil
+}
+
+func parseSMTBV(v string, b *types.Basic) (int64, bool) {
+	v = strings.TrimSpace(v)
+	var u uint64
+	var err error
+	bits := 64
+	switch {
+	case strings.HasPrefix(v, "#x"):
+		u, err = strconv.ParseUint(v[2:], 16, 64)
+		bits = 4 * len(v[2:])
+	case strings.HasPrefix(v, "#b"):
+		u, err = strconv.ParseUint(v[2:], 2, 64)
+		bits = len(v[2:])
+	default:
+		return 0, false
+	}
+	if err != nil {
+		return 0, false
+	}
+	if !isUnsigned(b) && bits < 64 && u&(1<<uint(bits-1)) != 0 {
+		return int64(u) - (1 << uint(bits)), true
+	}
+	return int64(u), true
+}
+
+// specToGo translates a quantifier-free (or int-range quantified) specification expression over parameters and results to Go.
+func specToGo(x *Expr, names map[string]bool) (string, error) {
+	switch x.Op {
+	case "lit":
+		switch x.Kind {
+		case "int", "char", "string", "bool", "float":
+			return x.Lit, nil
+		}
+		return "", fmt.Errorf("literal %s", x.Lit)
+	case "ident":
+		if names[x.Name] || x.Name == "true" || x.Name == "false" {
+			return x.Name, nil
+		}
+		return "", fmt.Errorf("name %s", x.Name)
+	case "un":
+		a, err := specToGo(x.Args[0], names)
+		if err != nil {
+			return "", err
+		}
+		if x.Name == "!" || x.Name == "-" {
+			return "(" + x.Name + a + ")", nil
+		}
+		return "", fmt.Errorf("operator %s", x.Name)
+	case "bin":
+		a, err := specToGo(x.Args[0], names)
+		if err != nil {
+			return "", err
+		}
+		b, err := specToGo(x.Args[1], names)
+		if err != nil {
+			return "", err
+		}
+		switch x.Name {
+		case "==>":
+			return "(!(" + a + ") || (" + b + "))", nil
+		case "===":
+			return "(" + a + " == " + b + ")", nil
+		case "&&", "||", "==", "!=", "<", "<=", ">", ">=", "+", "-", "*", "/", "%":
+			return "(" + a + " " + x.Name + " " + b + ")", nil
+		}
+		return "", fmt.Errorf("operator %s", x.Name)
+	case "call":
+		switch x.Name {
+		case "len", "min", "max", "int", "int64", "int32", "uint64", "uint32", "byte", "uint8":
+			var as []string
+			for _, a := range x.Args {
+				g, err := specToGo(a, names)
+				if err != nil {
+					return "", err
+				}
+				as = append(as, g)
+			}
+			return x.Name + "(" + strings.Join(as, ", ") + ")", nil
+		}
+		return "", fmt.Errorf("call of %s", x.Name)
+	case "index":
+		a, err := specToGo(x.Args[0], names)
+		if err != nil {
+			return "", err
+		}
+		i, err := specToGo(x.Args[1], names)
+		if err != nil {
+			return "", err
+		}
+		return a + "[" + i + "]", nil
+	case "ite":
+		c, err := specToGo(x.Args[0], names)
+		if err != nil {
+			return "", err
+		}
+		a, err := specToGo(x.Args[1], names)
+		if err != nil {
+			return "", err
+		}
+		b, err := specToGo(x.Args[2], names)
+		if err != nil {
+			return "", err
+		}
+		return "func() int { if " + c + " { return int(" + a + ") }; return int(" + b + ") }()", nil
+	case "forall", "exists":
+		if x.VarT != "" {
+			return "", fmt.Errorf("quantifier over a type")
+		}
+		lo, err := specToGo(x.Args[0], names)
+		if err != nil {
+			return "", err
+		}
+		hi, err := specToGo(x.Args[1], names)
+		if err != nil {
+			return "", err
+		}
+		n2 := map[string]bool{x.Var: true}
+		for k := range names {
+			n2[k] = true
+		}
+		body, err := specToGo(x.Args[2], n2)
+		if err != nil {
+			return "", err
+		}
+		if x.Op == "forall" {
+			return fmt.Sprintf("func() bool { for %s := int(%s); %s < int(%s); %s++ { if !(%s) { return false } }; return true }()", x.Var, lo, x.Var, hi, x.Var, body), nil
+		}
+		return fmt.Sprintf("func() bool { for %s := int(%s); %s < int(%s); %s++ { if %s { return true } }; return false }()", x.Var, lo, x.Var, hi, x.Var, body), nil
+	}
+	return "", fmt.Errorf("construct %s", x.Op)
 }
